@@ -104,8 +104,25 @@ func fullFuncName(fn *ssa.Function) string {
 			}
 		}
 	}
-	s := fn.String()
+	s := reviewedName(fn)
 	// (*pkg.T).M -> pkg.(*T).M ; (pkg.T).M -> pkg.(T).M
+	if strings.HasPrefix(s, "(") {
+		i := strings.Index(s, ").")
+		recv := s[1:i]
+		star := ""
+		if strings.HasPrefix(recv, "*") {
+			star = "*"
+			recv = recv[1:]
+		}
+		j := strings.LastIndex(recv, ".")
+		return recv[:j] + ".(" + star + recv[j+1:] + ")." + s[i+2:]
+	}
+	return s
+}
+
+// fullFuncName0: table-format name of the function as it is called now (no rename mapping).
+func fullFuncName0(fn *ssa.Function) string {
+	s := fn.String()
 	if strings.HasPrefix(s, "(") {
 		i := strings.Index(s, ").")
 		recv := s[1:i]
